@@ -115,7 +115,7 @@ def _run(ctx, rep):
             I = new_interp(f)
             sv = I.sym_value(ty, 'self')
             old = seqlen(sv.fields['data'].segs)
-            I.st.ranges[old] = (36, (1 << 64) - 1)
+            I.st.ranges[old] = (36, (1 << 63) - 1)      # (a Vec<u8> holds at most isize::MAX bytes)
             args = [_sdt_arg(I, nm, t, variant) for nm, t in params_of(b)[1:]]
             P = {nm: a for (nm, _), a in zip(params_of(b)[1:], args)}
             run_fn(I, b['def'], [RefV(Cell(sv), True)] + args, tsub={'T': variant} if variant else None)
